@@ -4,6 +4,27 @@ import json, os
 ROOT = os.path.dirname(os.path.dirname(os.path.abspath(__file__)))
 
 CLAIMED = {
+    "C10": dict(
+        engine="utf8", design_ref="6.10",
+        technique="Lean 4 proof (streaming invariant relating the pending incomplete prefix to the unread suffix; "
+                  "modelled str::from_utf8 proved equal to a table-driven Unicode Table 3-7 spec) + model/code "
+                  "correspondence on exhaustive lead-byte × continuation-class × split-position covers; "
+                  "encoding_rs path: abstract-decoder theorem + differential run of the real decoders",
+        text="For ALL chunk lists the model of Utf8LossyDecoder (decode_utf8, IncompleteUtf8::try_complete_offsets, "
+             "process/finish loops, every unwrap/slice/pop_front as a panic branch) is proved to deliver to the inner "
+             "sink exactly the spec's lossy decode of the concatenation (one error + U+FFFD per maximal ill-formed "
+             "subpart, in place), never to panic, to be independent of chunking, and to hand over only non-empty "
+             "well-formed UTF-8 pieces; the spec's scalar values are proved shortest-form, non-surrogate, ≤ U+10FFFF. "
+             "The model is tied to the code by the exact sequence of sink calls on exhaustive covers; the modelled "
+             "from_utf8 is validated against the real one. LossyDecoder over encoding_rs: partial — decode_to_sink is "
+             "proved against an arbitrary abstract decoder (forwards every output, one replacement per Malformed, drains "
+             "at end of stream); the real decoders (40 encodings × partitions) and the parsers behind from_utf8() "
+             "are exercised differentially against a one-shot decode / one-piece parse.",
+        note="Trusted: Lean kernel; Spec.Utf8 (my transcription of Table 3-7, cross-checked against Python's codec each "
+             "run); the model of core::str::from_utf8 (validated, not proved, against the real function); the hand-written "
+             "model + the utf8 correspondence. Partial: encoding_rs decoders are an external library — only their "
+             "documented streaming contract is assumed, and their agreement with a one-shot decode is tested, not proved; "
+             "tree equality through from_utf8() rests on C03 (chunking independence of the tokenizer) and is tested here."),
     "C13": dict(
         engine="bq", design_ref="6.13",
         technique="Lean 4 proof (refinement of the buffer list to its concatenation, invariant by induction over "
@@ -31,6 +52,46 @@ CLAIMED["C14"] = dict(
     note="Trusted: Lean kernel; tools/extract.py; Python's html.entities as the WHATWG reference; the Python reference "
          "decoder; phf/string_cache are modelled as a finite map. The longest-match walk is carried by the correspondence "
          "and the enumeration, not yet by a theorem.")
+
+CLAIMED["C07"] = dict(
+    engine="ser", design_ref="6.7",
+    technique="Lean 4 proof about a byte-level model of html5ever/src/serialize/mod.rs and of rcdom's "
+              "SerializableHandle traversal (loop invariant for write_escaped's search_start/next_special arithmetic, "
+              "per-character UTF-8 case analysis, induction on strings, mutual induction on trees, refinement of the "
+              "ElemInfo stack to a pure renderer) + model/code correspondence (engine ser) on exhaustive escape / "
+              "element-name × namespace × scope / Serializer-call-sequence covers and seeded random and parsed trees "
+              "+ oracles evaluated on the real code",
+    text="Proved in Lean (kernel, axioms ⊆ propext/Classical.choice/Quot.sound) for all inputs: "
+         "C07_write_escaped_eq — the write_escaped loop never panics and equals a structural byte function for every "
+         "byte string; C07_current_write_escaped — for every string and both modes the bytes written are UTF-8 of the "
+         "standard's character-level escape; C07_unescape_text / C07_unescape_attr — a reader for the data state / "
+         "double-quoted attribute value state (five references, CR/NUL preprocessing) returns the original string from "
+         "its escape, also when followed by `<…` / `\"…`, for every string free of CR and NUL (C07_witness_cr/_nul show "
+         "why those are excluded); C07_escape_text_no_lt / C07_escape_attr_no_quote — escaped text contains no `<`, `>` "
+         "and no `\"` in attribute mode, so nothing leaves its context; C07_serialize_eq_render, C07_no_panic, "
+         "C07_runOps_eq, C07_serializeOps_eq — the serializer is a pure function of the tree, reaches no panic site on "
+         "trees without Document nodes, and rcdom's op-deque loop equals the recursive traversal; C07_tags + "
+         "C07_current_inner_outer — for every element of every tree and all options, serializing the children with "
+         "the element named as parent yields exactly the bytes between its start and end tag; C07_raw_only_html + "
+         "C07_current_scope_raw — text is written unescaped iff the parent is an HTML-namespace raw-text element "
+         "(and scripting is on, for noscript). The `_partial`, `_witness_*` and `C07_pinned_*` theorems record the three "
+         "defects of the pinned snapshot that were repaired by fix: commits (0xC2 lead byte dropped; namespace of the "
+         "ChildrenOnly parent ignored; void ChildrenOnly parent). NOT proved: the first sentence of the property as a "
+         "whole — that parse_fragment(serialize(t)) = t through the real tokenizer and tree builder; it is checked on "
+         "the real code only (rt= oracle: real parse_fragment(context div) of the serialized children of seeded random "
+         "ordinary trees and boundary strings), together with inner = outer on the real code for every element of "
+         "every generated and every parsed tree × both scripting settings, and byte equality with an independent "
+         "python reference serializer.",
+    note="Trusted: Lean kernel; the hand-written model lean/H5V/Model/HtmlSer.lean + the ser correspondence "
+         "(differential; families and counts in evidence); str::as_bytes modelled by core Lean's String.utf8EncodeChar "
+         "and memchr2/memchr3 as first-index search (validated by the correspondence, not proved); the reader "
+         "`unescape` is a hand-written abstraction of the tokenizer restricted to the references the serializer emits; "
+         "the python reference serializer used as byte oracle. Round trip claimed for the ordinary vocabulary only "
+         "(no void / raw-text / implied-end-tag / formatting / table / select / template elements, text non-empty, not "
+         "adjacent, free of CR and NUL) and with TokenizerOpts.discard_bom = false (with the default, a U+FEFF that "
+         "starts the first text node is dropped by the tokenizer by design of that option). Writer I/O errors are not "
+         "modelled. The serializer writes text children of void elements and has no leading-newline handling for "
+         "pre/textarea/listing; both are outside the property's vocabulary and modelled as they are.")
 
 PENDING_REASON = "not claimed yet: the Lean model / engine for this property is still under construction (see DESIGN.md section 8); no check is registered rather than registering one that is not sound"
 
